@@ -1,6 +1,9 @@
 package refmodel
 
 import (
+	"go/parser"
+	"go/printer"
+	"go/token"
 	"go/types"
 	"strconv"
 	"strings"
@@ -120,7 +123,7 @@ func (md *Model) explicitField(path string, ft types.Type, named []explicitN) {
 	for _, e := range named {
 		switch e.kind {
 		case "literal":
-			srcs = append(srcs, "lit:"+strings.Join(strings.Fields(e.lit), ""))
+			srcs = append(srcs, "lit:"+CanonLit(e.lit))
 		case "map":
 			n := md.resolve(e.src)
 			if n == nil {
@@ -175,7 +178,15 @@ func (md *Model) explicitField(path string, ft types.Type, named []explicitN) {
 						continue
 					}
 					for _, s := range f2.sources {
-						args = append(args, "&"+s)
+						if s == n.canon {
+							args = append(args, "&"+s)
+						}
+					}
+					if len(args) == 0 {
+						// the source fits the pointee type only through a conversion or String(): its
+						// address cannot be taken, and what the notation denotes then is not documented
+						either = "address of a converted converter argument"
+						continue
 					}
 					notes = append(notes, f2.notes...)
 				}
@@ -241,4 +252,17 @@ func (e *Expect) AlsoNone() bool {
 		}
 	}
 	return false
+}
+
+// CanonLit renders literal text canonically: as go/printer prints the expression when the text
+// parses as one (white space inside string literals is content and stays), else with all white
+// space removed.
+func CanonLit(text string) string {
+	if x, err := parser.ParseExpr(text); err == nil {
+		var sb strings.Builder
+		if printer.Fprint(&sb, token.NewFileSet(), x) == nil && !strings.Contains(sb.String(), "\n") {
+			return sb.String()
+		}
+	}
+	return strings.Join(strings.Fields(text), "")
 }
